@@ -54,6 +54,9 @@ def make_auth(cfg, clock, table, calls):
 
     class Scripted(rauth.BaseAuth):
         def _login(self, login, password):
+            if table.get("\x00fault"):
+                calls.append((clock.now, login, password, None))
+                raise OSError("the back-end cannot be reached")
             ent = table.get(login)
             res = ent[1] if ent is not None and ent[0] == password else ""
             calls.append((clock.now, login, password, res))
@@ -76,10 +79,17 @@ def run_impl(cfg, steps):
             table.clear()
             for (l, p, u) in s["creds"]:
                 table.setdefault(l, (p, u))
+            if s.get("fault"):
+                table["\x00fault"] = True
             ncalls = len(calls)
             try:
                 user, info = a.login(s["l"], s["pw"])
                 outs.append({"user": user, "cached": info.endswith("/ cached"), "consulted": len(calls) > ncalls})
+            except OSError as e:
+                if not s.get("fault"):
+                    outs.append({"exception": repr(e)})
+                    return outs, calls
+                outs.append({"fault": True})                # the back-end's own error, passed on to the caller
             except Exception as e:
                 outs.append({"exception": repr(e)})
                 return outs, calls
@@ -111,13 +121,21 @@ def oracle(ctx, cfg, steps, outs, calls, tag):
             break
         o = outs[i]
         case = {"cfg": cfg, "steps": steps[:i + 1], "history": tag}
+        if s.get("fault"):
+            # the back-end failed (it neither accepted nor rejected): only an answer from the cache is a legitimate answer;
+            # in particular the failure must not be remembered as a rejection (checked by the steps that follow)
+            if "fault" in o:
+                continue
+            if not o.get("cached"):
+                ctx.violation("the back-end raised an error and login() answered %r without a cached justification" % (o,), case)
+                return False
         if "exception" in o:
             fid = "F11" if "KeyError" in o["exception"] else None
             ctx.violation("login raised %s" % o["exception"], case, "a (user, info) tuple", o["exception"], finding=fid)
             return False
         l = map_login(cfg, s["l"])
         lim = cfg["succ"] if o["user"] else cfg["fail"]
-        ok = any(c[1] == l and c[2] == s["pw"] and c[3] == o["user"] and c[0] <= now and age(now, c[0]) <= lim
+        ok = any(c[3] is not None and c[1] == l and c[2] == s["pw"] and c[3] == o["user"] and c[0] <= now and age(now, c[0]) <= lim
                  for c in calls)
         if not ok:
             ctx.violation("answer %r for (%r,%r) is not justified by any back-end answer within %d s" % (
@@ -187,16 +205,18 @@ def gen_history(rng, cfg):
         else:
             pw = rng.choice(pws)
         steps.append({"dt": dt, "l": l, "pw": pw, "creds": [[k2, v[0], v[1]] for k2, v in sorted(table.items())]})
+        if cfg.get("faults") and rng.random() < 0.12:
+            steps[-1]["fault"] = True           # the back-end raises OSError at this attempt (file briefly missing, server down)
     return steps
 
 
-def model_outs(ctx, cfg, steps):
+def model_outs(ctx, cfg, steps, outs=None):
     req = {"m": "authcache", "succ": cfg["succ"], "fail": cfg["fail"], "lc": cfg["lc"], "uc": cfg["uc"],
            "strip": cfg["strip"], "t0": cfg.get("t0", T0), "fail_salt": cfg.get("t0", T0),
-           "steps": [{"dt": s["dt"], "l": chars(s["l"]), "pw": chars(s["pw"]),
+           "steps": [{"dt": s["dt"], "l": chars(s["l"]), "pw": chars(s["pw"]), "fault": bool(s.get("fault")),
                       "creds": [[chars(a), chars(b), chars(c)] for a, b, c in s["creds"]]} for s in steps]}
     r = ctx.driver.ask1(req)["r"]
-    return [{"user": unchars(o["user"]), "cached": o["cached"], "consulted": o["consulted"]} for o in r]
+    return [{"fault": True} if o.get("fault") else {"user": unchars(o["user"]), "cached": o["cached"], "consulted": o["consulted"]} for o in r]
 
 
 CORPUS = [
@@ -230,7 +250,7 @@ def check_history(ctx, cfg, steps, tag, stratum):
     ctx.extra["cached_answers"] = ctx.extra.get("cached_answers", 0) + cached
     ctx.extra["attempts"] = ctx.extra.get("attempts", 0) + len(outs)
     if ctx.driver:
-        m = model_outs(ctx, cfg, steps)
+        m = model_outs(ctx, cfg, steps, outs)[:len(outs)]
         if m != outs:
             ctx.disagree("BaseAuth.login history vs model", {"cfg": cfg, "steps": steps, "history": tag}, outs, m)
     return ok, outs
@@ -282,6 +302,8 @@ def run(ctx):
             cfg["lc"] = True
         elif k < 0.3:
             cfg["uc"] = True
+        if rng.random() < 0.25:
+            cfg["faults"] = True
         if rng.random() < 0.12:
             # a clock shortly after the epoch: readings with different numbers of decimal digits inside one cache lifetime
             cfg["t0"] = 10 ** rng.choice([9, 10, 11]) - rng.randint(1, 30)
